@@ -1179,9 +1179,16 @@ pub fn run_free(trace: &Trace) -> Vec<String> {
     let mut problems = Vec::new();
     let mut written: BTreeMap<u32, u16> = BTreeMap::new();
     for rec in &trace.prologue {
-        if let Op::Insert { k, vid, w } = &rec.op {
-            cache.insert(K::tracked(*k, &reg), V::new(*vid, *w, &reg));
-            written.insert(*vid, *k);
+        match &rec.op {
+            Op::Insert { k, vid, w } => {
+                cache.insert(K::tracked(*k, &reg), V::new(*vid, *w, &reg));
+                written.insert(*vid, *k);
+            }
+            Op::Get { k } => {
+                let _ = cache.get(&K::probe(*k));
+            }
+            Op::Sync => mini_moka::sync::ConcurrentCacheExt::sync(&cache),
+            _ => {}
         }
     }
     for t in &trace.threads {
